@@ -125,7 +125,7 @@ func MaxSat(c Case) (out Case) {
 				return out
 			}
 			useChan := boolean(e, "chan")
-			stream := []M{}
+			var kept []keptResult
 			closed := false
 			var res solver.Result
 			if useChan {
@@ -133,7 +133,7 @@ func MaxSat(c Case) (out Case) {
 				done := make(chan struct{})
 				go func() {
 					for x := range ch {
-						stream = append(stream, resultRec(x))
+						kept = append(kept, streamRec(x))
 						consumerDelay(cfg)
 					}
 					closed = true
@@ -150,7 +150,7 @@ func MaxSat(c Case) (out Case) {
 			for k, v := range resultRec(res) {
 				r[k] = v
 			}
-			r["stream"], r["closed"] = stream, closed
+			r["stream"], r["closed"] = lateModels(kept), closed
 			evs = append(evs, r)
 		}
 	default:
